@@ -199,6 +199,40 @@ def stepFilter (s : FSt) (ts : List String) : FSt × String :=
 structure NSt where
   mmr : MMR PT := ⟨0, Store.empty⟩
   chain : List Nat := []
+  /-- block tree: id ↦ parent id, for every delivered block -/
+  parent : List (Nat × Nat) := []
+  /-- stored, never verified blocks whose extension `BlockExtensionVerifier` refuses -/
+  bad : List Nat := []
+  /-- blocks the chain service rejected (and deleted) -/
+  gone : List Nat := []
+
+/-- genesis ..= id along the parent links (fuel = block number + 1) -/
+def pathOf (parent : List (Nat × Nat)) : Nat → Nat → List Nat
+  | 0, _ => [0]
+  | f + 1, id => if id = 0 then [0] else pathOf parent f ((lookup parent id).getD 0) ++ [id]
+
+def pathTo (s : NSt) (id : Nat) : List Nat := pathOf s.parent (id % 10000 + 1) id
+
+/-- the chain root over a list of leaf ids, by the carry-style specification -/
+def rootOfPath (ids : List Nat) : Option Term :=
+  match specRoot pmerge (ids.map fun i => some (Term.leaf i)) with
+  | some (some r) => some r
+  | _ => none
+
+/-- `ChainService` on a delivered block (chain/src/verify.rs `verify_block`), permanent difficulty: the block
+becomes the best chain iff its number exceeds the tip's; then `reconcile_main_chain` verifies the not yet
+verified blocks of its branch in order and fails on the first one `BlockExtensionVerifier` refuses (the
+delivered block is then deleted; the others stay stored and unverified). Otherwise it is stored unverified. -/
+def deliver (s : NSt) (id parentId : Nat) (isBad : Bool) : NSt × String :=
+  let path := pathTo s parentId
+  let tipN := s.chain.length - 1
+  let number := parentId % 10000 + 1
+  let s1 := { s with parent := (id, parentId) :: s.parent }
+  if s.gone.contains parentId then ({ s1 with gone := id :: s1.gone }, "rejected")
+  else if number > tipN then
+    if isBad || path.any (fun a => s.bad.contains a || s.gone.contains a) then ({ s1 with gone := id :: s1.gone }, "rejected")
+    else (s1, "ok")
+  else ({ s1 with bad := if isBad then id :: s1.bad else s1.bad }, "ok")
 
 def commonPrefix : List Nat → List Nat → Nat
   | a :: as, b :: bs => if a = b then 1 + commonPrefix as bs else 0
@@ -211,8 +245,42 @@ def rootStr (tag : String) (m : MMR PT) : String :=
 
 def stepNode (s : NSt) (ts : List String) : NSt × String :=
   match ts with
-  | ["blk", _, _] => (s, "ok")
+  | ["blk", id, parent] =>
+    match parseNat? id, parseNat? parent with
+    | some id, some parent => deliver s id parent false
+    | _, _ => (s, "bad-op")
   | ["bad", _, _] => (s, "rejected")
+  | ["xblk", id, parent, len, src] =>
+    match parseNat? id, parseNat? parent with
+    | some id, some parent =>
+      let path := pathTo s parent
+      let actual := rootOfPath path
+      let committed : Option Term :=
+        if src = "flip" then none
+        else match src.splitOn ":" with
+          | ["at", k] => (parseNat? k).bind fun k => rootOfPath (path.take (k + 1))
+          | ["of", o] => (parseNat? o).bind fun o => rootOfPath (pathTo s o)
+          | _ => none
+      let extLen : Option Nat := if len = "none" then none else parseNat? len
+      let extraFields := if len = "none" then 0 else 1
+      let prefixIsRoot := actual.isSome && committed == actual
+      let isBad := match extensionVerdict true extraFields extLen actual.isSome prefixIsRoot true with
+        | .ok => false
+        | _ => true
+      deliver s id parent isBad
+    | _, _ => (s, "bad-op")
+  | ["nodes"] =>
+    -- the raw rows below the size of the main chain's MMR, from the model's own (never cleaned) store
+    let s := if s.chain.isEmpty then
+        match pushChecked s.mmr [0] with
+        | some (m, _) => { s with mmr := m, chain := [0] }
+        | none => s
+      else s
+    let ts := (List.range s.mmr.size).map fun p =>
+      match s.mmr.store p with
+      | some (some t) => t.render
+      | _ => "none"
+    (s, s!"nodes {s.mmr.size} {if ts.isEmpty then "-" else ";".intercalate ts}")
   | ["main", ids] =>
     match parseNatList? ids with
     | none => (s, "bad-op")
@@ -221,7 +289,7 @@ def stepNode (s : NSt) (ts : List String) : NSt × String :=
       let c := commonPrefix s.chain newChain
       let base : MMR PT := { size := sizeOfLeaves c, store := s.mmr.store }
       match pushChecked base (newChain.drop c) with
-      | some (m, _) => ({ mmr := m, chain := newChain }, rootStr "root" m)
+      | some (m, _) => ({ s with mmr := m, chain := newChain }, rootStr "root" m)
       | none => (s, "err")
   | ["rootat", n] =>
     match parseNat? n with
@@ -361,6 +429,45 @@ def stepNFilter (s : NFSt) (ts : List String) : NFSt × String :=
       | some fs' =>
         let built := (fs'.built.map (·.1)).foldr insertSortedNat []
         ({ s with main := main, fs := fs' }, s!"built {showNatList built}")
+  | ["syncm", ids] =>
+    -- after a burst only canonical facts are compared: which MAIN-chain blocks have a filter, and the pointer.
+    -- The model runs one pass from its own state (one admissible schedule: the service saw none of the
+    -- intermediate tips); `filter_restart_point` says the answer is the same for every schedule.
+    match parseNatList? ids with
+    | none => (s, "bad-op")
+    | some ids =>
+      let main := 0 :: ids
+      let blkOf : Nat → Blk := fun i => (s.blocks.find? fun b => b.id = i).getD ⟨i, 0, i % 10000⟩
+      let v : View := { blk := blkOf, isMain := fun i => main.contains i, mainAt := fun n => main.getD n 0, tip := main.length - 1 }
+      match buildFilterData (fun ph d => d :: ph) [] v s.fs with
+      | none => ({ s with main := main }, "panic")
+      | some fs' =>
+        let mb := main.filter fun i => (lookupHash fs'.built i).isSome
+        let latest := match fs'.latest with | some l => toString l | none => "none"
+        ({ s with main := main, fs := fs' }, s!"mbuilt {showNatList mb} latest={latest}")
+  | ["hblk", id, parent] =>
+    match parseNat? id, parseNat? parent with
+    | some id, some parent => ({ s with blocks := ⟨id, parent, id % 10000⟩ :: s.blocks }, "ok")
+    | _, _ => (s, "bad-op")
+  | ["hstart", ids, built, latest] =>
+    -- a hand-written store: filter rows for `built` (chained in that order), pointer = `latest`, main chain = ids
+    -- (possibly shorter than an abandoned branch); then the start-up pass of `build_filter_data`
+    match parseNatList? ids, parseNatList? built, parseNat? latest with
+    | some ids, some built, some latest =>
+      let main := 0 :: ids
+      let blkOf : Nat → Blk := fun i => (s.blocks.find? fun b => b.id = i).getD ⟨i, 0, i % 10000⟩
+      match buildRange (fun ph d => d :: ph) [] ⟨[], none⟩ (built.map blkOf) with
+      | none => (s, "bad-op")
+      | some fs0 =>
+        let fs0 : FState (List Nat) := { fs0 with latest := some latest }
+        let v : View := { blk := blkOf, isMain := fun i => main.contains i, mainAt := fun n => main.getD n 0, tip := main.length - 1 }
+        match buildFilterData (fun ph d => d :: ph) [] v fs0 with
+        | none => ({ s with main := main, fs := fs0 }, "panic")
+        | some fs' =>
+          let mb := main.filter fun i => (lookupHash fs'.built i).isSome
+          let latest := match fs'.latest with | some l => toString l | none => "none"
+          ({ s with main := main, fs := fs' }, s!"mbuilt {showNatList mb} latest={latest}")
+    | _, _, _ => (s, "bad-op")
   | "filter" :: _ :: txs =>
     match txs.mapM parseNTx? with
     | none => (s, "bad-op")
